@@ -63,6 +63,7 @@ def run(ctx):
         ctx.tlc_mc(fam, "VCode", "VCode_MC_reach_limit.cfg", workers=1, expect_violation="NeverLimit")
         ctx.tlc_mc(fam, "VCode", "VCode_MC_reach_refused.cfg", workers=1, expect_violation="NeverRefused")
         ctx.tlc_mc(fam, "VCode", "VCode_MC_big.cfg", workers=16, timeout=3000, heap="16g")
+        ctx.tlc_mc(fam, "VCode", "VCode_MC_big3.cfg", workers=16, timeout=3000, heap="16g")
     # 2. plans out of the spec
     pdir, plans = ctx.tlc_plans(fam, "VCode_Gen", "VCode_Gen.cfg", num=ctx.q(300, 4000), depth=16)
     # 3. execute on the real code
